@@ -199,11 +199,16 @@ def explore(ctx):
     # versus characters): a whole extra token, field or stage must be rejected or take effect, never be dropped
     TAILS = [' b', ' x y', ' 5', ', z', ' | count', ' | limit 1', ' | fields id', ' extra', ')', ' as q']
     HEADS = ['"日本語" OR * | ', 'NOT "日本語のログ行です" | ', '"żółć" OR "ł" OR * | ', '* | json | where s != "日本語日本語日本語" | ', '"😀😀" OR * | ']
+    ASCII_HEADS = ['"abc" OR * | ', 'NOT "abcdefghij" | ', '"zolc" OR "l" OR * | ', '* | json | where s != "abcabcabc" | ', '"xx" OR * | ']
+    twins = []
     for i in range(120 if quick else 2500):
         b = rng.choice(base)
         if not b.startswith('* | '):
             continue
-        queries.append(rng.choice(HEADS) + b[4:] + rng.choice(TAILS))
+        hi = rng.randrange(len(HEADS))
+        tl = rng.choice(TAILS)
+        queries.append(HEADS[hi] + b[4:] + tl)
+        twins.append((HEADS[hi] + b[4:] + tl, ASCII_HEADS[hi] + b[4:] + tl))
     # deep nesting
     for d in (5, 20, 40):
         queries.append('* | json | ' + '(' * d + 'a' + ')' * d + ' as x')
@@ -246,6 +251,18 @@ def explore(ctx):
             agree += 1
         else:
             failures.append({'kind': 'corr', 'what': 'implementation %ss, the grammar model %ss' % (im[0], ms), 'payload': {'query': q, 'stderr_tail': im[1][-300:]}})
+    # whether a query is accepted cannot depend on the text INSIDE an earlier quoted keyword being ASCII or not: the
+    # twin with ASCII text of the same shape must get the same verdict (a byte offset compared with a character count
+    # drops a short left-over tail after multi-byte text)
+    twins = [t for t in dict.fromkeys(twins) if len(t[0]) < 600]
+    tw = impl_accepts([t[1] for t in twins])
+    verdict = {q: im[0] for q, im in zip(queries, impl)}
+    for (qm, qa), ia in zip(twins, tw):
+        if qm in verdict and verdict[qm] in ('accept', 'reject') and ia[0] in ('accept', 'reject') and verdict[qm] != ia[0]:
+            failures.append({'kind': 'spec', 'what': 'the query is %sed, its twin with ASCII text in the quoted keyword is %sed: the text left over at the end is %s'
+                                                     % (verdict[qm], ia[0], 'silently ignored' if verdict[qm] == 'accept' else 'treated differently'),
+                             'payload': {'query': qm, 'ascii_twin': qa}})
+            break
     # accepted queries are fully honoured: the behaviour equals running the model's reading of the same text
     # a percentile cell is the CKMS sketch's answer (an oracle for the model): queries that feed it to a later stage are not compared
     acc = [q for q, im in zip(queries, impl) if im[0] == 'accept' and 'regex' not in q and 'now()' not in q and not re.search(r'\b(p|pct|percentile)\d+\s*\(.*\|', q)][:600 if quick else 8000]
